@@ -78,6 +78,8 @@ def gen_contents(rng, n):
         if k == 'contract_call':
             s['arg'] = rng.choice([0, 1, 63, 64, 10**9])
             s['entrypoint'] = rng.choice(['increment', 'decrement'])
+            if rng.random() < 0.3:
+                s['pinned_block'] = rng.choice([1, 2, 3])
         if k == 'transaction':
             if rng.random() < 0.3:
                 s['dest'] = cs.KT
@@ -152,6 +154,8 @@ def gen(seed, tier):
             if op == 'new':
                 st['contents'] = gen_contents(rng, n)
                 st['via'] = rng.choice(['chain', 'chain', 'bulk'])
+                if st['via'] == 'bulk' and rng.random() < 0.3:
+                    st['stale_member'] = True
                 if n == 1 and rng.random() < 0.25:
                     st['contents'] = [{'kind': 'contract_call', 'arg': rng.choice([0, 5, 10**9]), 'entrypoint': rng.choice(['increment', 'decrement'])}]
                     st['via'] = 'call'
@@ -366,7 +370,11 @@ def simplify(scn):
                 c = cp()
                 c['steps'][i]['contents'] = [{'kind': 'transaction', 'dest': cs.OTHERS[0], 'amount': 0} for _ in st['contents']]
                 yield c
-            if st.get('via') == 'bulk':
+            if st.get('stale_member'):
+                c = cp()
+                del c['steps'][i]['stale_member']
+                yield c
+            if st.get('via') == 'bulk' and not st.get('stale_member'):
                 c = cp()
                 c['steps'][i]['via'] = 'chain'
                 yield c
